@@ -184,11 +184,11 @@ func TestVerif_C19_Sign(t *testing.T) {
 		mode := gen.Pick(t, "fault", "none", "inside", "inside", "boundary", "anywhere")
 		switch mode {
 		case "inside":
-			s.failAt = 32*gen.Int(t, "cand", 0, c.Cands-1) + gen.Int(t, "off", 1, 31)
+			s.failAt = 32*gen.Uniform(t, "cand", 0, c.Cands-1) + gen.Uniform(t, "off", 1, 31)
 		case "boundary":
-			s.failAt = 32 * gen.Int(t, "cand", 0, c.Cands)
+			s.failAt = 32 * gen.Uniform(t, "cand", 0, c.Cands)
 		case "anywhere":
-			s.failAt = gen.Int(t, "at", 0, len(c.Stream))
+			s.failAt = gen.Uniform(t, "at", 0, len(c.Stream))
 		}
 		s.err = c19Errs[gen.Int(t, "err", 0, 2)]
 		s.withData = gen.Bool(t, "withData")
@@ -222,11 +222,11 @@ func TestVerif_C19_Keygen(t *testing.T) {
 		mode := gen.Pick(t, "fault", "none", "inside", "inside", "boundary", "anywhere")
 		switch mode {
 		case "inside":
-			s.failAt = 32*gen.Int(t, "cand", 0, nrej) + gen.Int(t, "off", 1, 31)
+			s.failAt = 32*gen.Uniform(t, "cand", 0, nrej) + gen.Uniform(t, "off", 1, 31)
 		case "boundary":
-			s.failAt = 32 * gen.Int(t, "cand", 0, nrej+1)
+			s.failAt = 32 * gen.Uniform(t, "cand", 0, nrej+1)
 		case "anywhere":
-			s.failAt = gen.Int(t, "at", 0, len(stream))
+			s.failAt = gen.Uniform(t, "at", 0, len(stream))
 		}
 		s.err = c19Errs[gen.Int(t, "err", 0, 2)]
 		s.withData = gen.Bool(t, "withData")
